@@ -4,11 +4,13 @@ from decimal import Decimal
 from fractions import Fraction
 from tools import common as C, wire, oracle as O
 
-LEAN_MODULES = ["SCP.C12"]
+LEAN_MODULES = ["SCP.C12", "SCP.C12Exec"]
 THEOREMS = ["SCP.C12." + t for t in """calc_factor factor_self factor_inverse factor_trans round_trip via_third convert_in_family
 convert_across_bridge convert_across_bridge_rev cross_kind_none gen_chains gen_weights_imperial_length gen_weights_imperial_weight
 gen_weights_metric_length gen_weights_metric_weight gen_weights_memory gen_bridges gen_kinds_separate add_converts_right
-add_needs_conversion scale_keeps_unit ratio_is_number""".split()] + ["SCP.Lemmas.C12.calculateUnit_weights"]
+add_needs_conversion scale_keeps_unit ratio_is_number""".split()] + ["SCP.Lemmas.C12.calculateUnit_weights"] + \
+    ["SCP.C12Exec." + t for t in """codeLex_mono strReplace_prefix executeCode_text executeCode_text_id lex_binary lex_single basicExecute_tree
+executeCode_mul executeCode_div executeCode_id gen_codes_ok gen_codes_multiply litOK_of_text readsBack_rat""".split()]
 RULE = ("EXHAUSTIVE over all ordered pairs of configured units (33 x 33, same kind and different kinds) x amounts {0, 1, 2.5, 0.001, "
         "1e6, -3, 1234.5678, random} x a random parse spelling of the source and name of the target, 'a A to B' compared with the exact "
         "rational factor computed from config.json by an independent reading (rel 1e-9) and against the textbook definitions "
@@ -16,8 +18,11 @@ RULE = ("EXHAUSTIVE over all ordered pairs of configured units (33 x 33, same ki
         "1024 multiples, decimal prefixes); round trips through a variable, A->B->C vs A->C, + - * / between quantities and numbers, "
         "different kinds (must not convert, must not add); 8 separator configurations ((',' '.'), ('.' ','), ('.' ''), (',' ''), and the thousands separators ' ', \"'\", '_' that only printing uses; quick: all pairs under the default, a 12% sample of pairs under each other one); non-trivial = pair of distinct units; distinct = "
         "distinct (convention, line)")
-ASSUMPTIONS = ["`execute_code` (text substitution + tokenizer + parser + interpreter) multiplies by the factor its code denotes: hypothesis "
-               "ExecIsMult of the theorems, decided here bit-for-bit (model executeCode over doubles vs implementation) and against exact rationals",
+ASSUMPTIONS = ["`execute_code` (text substitution + tokenizer + parser + interpreter) multiplies by the factor its code denotes (hypothesis ExecIsMult of "
+               "the SCP.C12 theorems): since SCP.C12Exec this is a THEOREM on the model for every configured code (gen_codes_multiply: executeCode code v = v * mult code; "
+               "the translator's factor table is re-derived from the model's own reader, gen_codes_ok) under ONE remaining hypothesis — the amount's printed text "
+               "(f64::to_string) is a literal that reads back as the amount — which the driver evaluates on every amount and result of the conversion cases "
+               "(counter amount-reads-back); model executeCode over doubles vs implementation is still compared bit-for-bit and against exact rationals",
                "floating-point rounding: implementation compared with relative tolerance 1e-9"]
 TRUSTED = ["unit literal lexing ('{NUMBER:value} {TEXT:type:<name>}' patterns are modelled from the implementation's own tokenisation)"]
 
@@ -151,6 +156,7 @@ def run(ctx, model_ok):
                 cases.append((dec, thou, f"{lit(x, dec)} {sa} {op} {lit(y, dec)} {rng.choice(other['words'])}", "mixed", (a, other)))
     ops = []
     cur = (",", ".")
+    readback = set()
     for (dec, thou, text, kind, data) in cases:
         if (dec, thou) != cur:
             ops.append({"op": "cfg", "dec": dec, "thou": thou})
@@ -182,6 +188,12 @@ def run(ctx, model_ok):
             ctx.seen((dec, thou, text), a is not b)
             if a["kind"] == b["kind"]:
                 bad = dy(ls[0], b, Fraction(amt) * a["base"] / b["base"], "conversion")
+                # hypothesis of SCP.C12Exec.gen_codes_multiply on the amount and on the result (the results of the one-step
+                # conversions are the intermediate amounts of the longer walks)
+                readback.add((dec, thou, float(Fraction(amt))))
+                v_ = val(ls[0])
+                if v_ is not None and v_.get("t") == "DY":
+                    readback.add((dec, thou, O.f64(v_["v"])))
             else:
                 v = val(ls[0])
                 if v is not None and v.get("t") == "DY" and KIND.get(v["group"]) != a["kind"]:
@@ -228,6 +240,14 @@ def run(ctx, model_ok):
             ctx.oracle_fail({"class": cls, "what": bad, "ops": rops, "impl": [val(l) if l else None for l in ls]})
         elif len(ctx.samples) < 10 and kind != "conv" and rng.random() < 0.02:
             ctx.sample({"text": text, "dec": dec, "thou": thou, "values": [val(l) for l in ls]})
+    if model_ok:
+        import struct
+        rb = sorted(x for x in readback if x[2] == x[2] and abs(x[2]) != float("inf"))
+        ans = C.run_model([f"readsback\t{wire.hx(d)}\t{wire.hx(t)}\t{struct.pack('>d', v).hex()}" for (d, t, v) in rb])
+        for (d, t, v), a_ in zip(rb, ans):
+            ctx.count("amount-reads-back:" + ("holds" if a_ == "1" else "fails"))
+            if a_ != "1" and len(ctx.samples) < 14:
+                ctx.sample({"amount-does-not-read-back": repr(v), "dec": d, "thou": t})
     # ---- the definitions still hold after further units were registered in the configured families (below the first and
     # ---- behind the last index): conversions between configured units do not involve the new items
     fams = {}
